@@ -149,6 +149,12 @@ def main(tier_: str) -> int:
             da.add_mps(periods=[
                 dict(pid='p1', stream='bbb', start_s=4, duration_s=32, tracks=[('video', 1, 'MAIN'), ('audio', 2, 'MAIN'), ('text', 4, 'MAIN')]),
                 dict(pid='p2', stream='tears', start_s=8, duration_s=44, tracks=[('video', 1, 'MAIN'), ('audio', 2, 'MAIN')])])
+            # a stream with two audio files on the same track id in different languages (an English and a French dub)
+            from harness.synth import relanguage
+            from harness.core import REPO as _REPO
+            dub = d / 'dub_a2.mp4'
+            dub.write_bytes(relanguage((_REPO / 'tests' / 'fixtures' / 'bbb' / 'bbb_a1.mp4').read_bytes(), 'fra'))
+            da.add_fixture('bbb', directory='dub', title='two dubs on one track id', only={'bbb_v7', 'bbb_a1'}, extra=[(dub, 'dub_a2')])
             da.clock.set(now)
             c = da.client()
             from dashlive.server import models
@@ -185,6 +191,10 @@ def main(tier_: str) -> int:
                         for o in (['', 'timeline=1', 'depth=20', 'drm=all', 'drm=clearkey', 'drm=playready&timeline=1'] if tier_ == 'thorough'
                                   else ['', rng.choice(['drm=all', 'drm=clearkey', 'drm=playready'])]):
                             urls.append(f'/mps/{mode}/testmps/{tmpl}' + ('?' + o if o else ''))
+            for tmpl, modes in templates.items():
+                for mode in modes:
+                    if tier_ == 'thorough' or tmpl in ('hand_made.mpd', 'manifest_e.mpd', 'manifest_vod_aiv.mpd'):
+                        urls.append(f'/dash/{mode}/dub/{tmpl}')
             refused = 0
             patch_urls = []
             for url in urls:
